@@ -261,7 +261,7 @@ def oracle_sender(events):
     return None
 
 
-def session_throttle(rate, sample, deny, n_msgs, throttled_answers, answer_delay, period=180.0):
+def session_throttle(rate, sample, deny, n_msgs, throttled_answers, answer_delay, period=180.0, rejected_answers=(), nacked_answers=()):
     """the real ESME.start() on a virtual-time loop with the real SimpleRateLimiter and SimpleThrottleHandler against an SMSC that
     answers some submit_sm with ESME_RTHROTTLED: times of the submit_sm writes and of the responses as the ESME handled them"""
     import struct
@@ -289,12 +289,16 @@ def session_throttle(rate, sample, deny, n_msgs, throttled_answers, answer_delay
                 elif cmd == 4:
                     count[0] += 1
                     obs['writes'].append(loop.time())
-                    status = 0x58 if count[0] in throttled_answers else 0
-                    conn.send(smppref.header(0x80000004, status, seq, b'' if status else b'id%d\x00' % seq), delay=answer_delay)
+                    status = 0x58 if count[0] in throttled_answers else (0x0B if count[0] in rejected_answers else 0)
+                    if count[0] in nacked_answers:
+                        conn.send(smppref.header(0x80000000, 3, seq), delay=answer_delay)
+                    else:
+                        conn.send(smppref.header(0x80000004, status, seq, b'' if status else b'id%d\x00' % seq), delay=answer_delay)
         smsc.on_pdu = on_pdu
 
         def rgate(msg, pdu):
-            if isinstance(msg, SubmitSmResp):
+            from aiosmpplib.protocol import GenericNack
+            if isinstance(msg, (SubmitSmResp, GenericNack)):
                 obs['responses'].append((loop.time(), int(msg.command_status)))
             return None
         hook.received_gate = rgate
@@ -454,13 +458,18 @@ def run(ctx):
         n_msgs = rng.randint(2, 12)
         sess_cases.append((rate, float(rng.choice([1, 2, 3, 5])), float(rng.choice([1, 20, 50])), n_msgs,
                            tuple(sorted(rng.sample(range(1, n_msgs + 1), rng.randint(0, min(3, n_msgs))))), rng.choice([0.0, 0.002, 0.05, 0.4, 1.5])))
-    for rate, sample, deny, n_msgs, thr_at, delay in sess_cases:
-        obs = session_throttle(rate, sample, deny, n_msgs, thr_at, delay)
+    sess_cases = [c + ((), ()) for c in sess_cases]
+    # every response counts as a sample, also rejections with other statuses and generic_nacks: 8 rejected + 2 throttled of 10 must deny
+    # at 'more than 15 percent'; 9 rejected/nacked + 1 throttled must not deny at 'more than 10 percent' (exactly 10)
+    sess_cases += [(2.0, 10.0, 15.0, 14, (9, 10), 0.01, (1, 2, 3, 4, 5, 6, 7, 8), ()), (2.0, 5.0, 10.0, 14, (10,), 0.01, (6, 7), (8, 9)),
+                   (2.0, 4.0, 30.0, 9, (4,), 0.01, (1, 2), (3,)), (2.0, 4.0, 20.0, 9, (4,), 0.01, (1, 2), (3,))]
+    for rate, sample, deny, n_msgs, thr_at, delay, rej_at, nack_at in sess_cases:
+        obs = session_throttle(rate, sample, deny, n_msgs, thr_at, delay, rejected_answers=rej_at, nacked_answers=nack_at)
         ctx.traces += 1
         ctx.count('throttle_sessions')
-        ctx.case(('session_throttle', rate, sample, deny, n_msgs, thr_at, delay), nontrivial=bool(thr_at))
+        ctx.case(('session_throttle', rate, sample, deny, n_msgs, thr_at, delay, rej_at, nack_at), nontrivial=bool(thr_at))
         rp = {'function': 'session_throttle', 'rate': rate, 'sample_size': sample, 'deny_request_at': deny, 'n_msgs': n_msgs,
-              'throttled_answers': list(thr_at), 'answer_delay': delay}
+              'throttled_answers': list(thr_at), 'answer_delay': delay, 'rejected_answers': list(rej_at), 'nacked_answers': list(nack_at)}
         if obs.get('start_done'):
             ctx.violation('start() ended during a throttled session', rp)
             continue
@@ -479,7 +488,15 @@ def run(ctx):
                 else:
                     continue
                 break
-        # never suspended otherwise: with no throttled answers everything is sent
+        # never suspended otherwise: when the denial condition never holds at any moment, everything is sent
+        def cond_after(k):
+            seen = [st for _t, st in obs['responses'][:k]]
+            if not seen or len(seen) < sample:
+                return False
+            return round2_exact(Fraction(sum(1 for st in seen if st in (0x58, 0x14)), len(seen)) * 100)[0] > deny
+        if thr_at and not any(cond_after(k) for k in range(1, len(obs['responses']) + 1)) and len(obs['writes']) != n_msgs:
+            ctx.violation(f'{len(obs["writes"])} of {n_msgs} messages were sent although the denial condition never held '
+                          f'({len(obs["responses"])} responses handled, sample_size {sample}, deny_request_at {deny}%)', rp)
         if not thr_at and len(obs['writes']) != n_msgs:
             ctx.violation(f'{len(obs["writes"])} of {n_msgs} messages were sent although no response was throttled', rp)
     if proved or not getattr(ctx, 'build_failing', None):
@@ -507,7 +524,8 @@ def replay(ctx, path):
         r = json.load(f)
     msg = None
     if r.get('function') == 'session_throttle':
-        obs = session_throttle(r['rate'], r['sample_size'], r['deny_request_at'], r['n_msgs'], tuple(r['throttled_answers']), r['answer_delay'])
+        obs = session_throttle(r['rate'], r['sample_size'], r['deny_request_at'], r['n_msgs'], tuple(r['throttled_answers']), r['answer_delay'],
+                               rejected_answers=tuple(r.get('rejected_answers', ())), nacked_answers=tuple(r.get('nacked_answers', ())))
         print('replay: submit_sm written at', [round(x, 3) for x in obs['writes']])
         print('replay: responses handled at', [(round(t, 3), hex(st)) for t, st in obs['responses']])
         msg = oracle_session_throttle(obs, Fraction(r['sample_size']), Fraction(r['deny_request_at']))
